@@ -216,7 +216,8 @@ func (c *Ctx) valueToJSON(me *modelEval, v Value, t types.Type, depth int) (inte
 		for i := 0; i < u.NumFields(); i++ {
 			j, ok := c.valueToJSON(me, sv.F[i], u.Field(i).Type(), depth+1)
 			if !ok {
-				return nil, false
+				// a field the harness cannot build (map, channel, func, oversized data) keeps its zero value
+				continue
 			}
 			m[u.Field(i).Name()] = j
 		}
@@ -451,7 +452,12 @@ func verifDump(v reflect.Value, depth int) interface{} {
 		if v.IsNil() {
 			return nil
 		}
-		return map[string]interface{}{"$stub": true}
+		e := v.Elem()
+		name := ""
+		if e.Kind() == reflect.Ptr {
+			name = e.Type().Elem().Name()
+		}
+		return map[string]interface{}{"$stub": true, "$dynptr": name, "$v": verifDump(e, depth+1)}
 	}
 	return map[string]interface{}{"$opaque": v.Kind().String(), "$nil": (v.Kind() == reflect.Map || v.Kind() == reflect.Func || v.Kind() == reflect.Chan) && v.IsNil()}
 }
@@ -736,6 +742,16 @@ func (c *Ctx) jsonToValue(st *State, t types.Type, j interface{}) Value {
 		if j == nil {
 			return IfaceV{Nil: true, Iface: t}
 		}
+		if m, ok := j.(map[string]interface{}); ok {
+			if dn, _ := m["$dynptr"].(string); dn != "" && c.Fn != nil && c.Fn.Pkg != nil {
+				if obj := c.Fn.Pkg.Pkg.Scope().Lookup(dn); obj != nil {
+					if _, isTN := obj.(*types.TypeName); isTN {
+						pt := types.NewPointer(obj.Type())
+						return IfaceV{Dyn: pt, Val: c.jsonToValue(st, pt, m["$v"]), Iface: t}
+					}
+				}
+			}
+		}
 		return IfaceV{Sym: IntC(1), Iface: t}
 	case *types.Map:
 		o := c.newObject("replay.map", t)
@@ -798,6 +814,7 @@ func (c *Ctx) overwritePost(st *State, t types.Type, pre Value, j interface{}) V
 }
 
 type ReplayOutcome struct {
+	Inputs    []interface{}
 	Ran       bool
 	Confirmed bool
 	Detail    string
@@ -837,7 +854,7 @@ func replayFunction(run *PropRun, g *ObGroup) ReplayOutcome {
 		return ReplayOutcome{Detail: "package directory not found"}
 	}
 	out, rerr := runOverlayTest(run.Eng.Repo, pkgDir, src, 60*time.Second, nil)
-	ro := ReplayOutcome{Ran: true, Output: tail(out, 4000)}
+	ro := ReplayOutcome{Ran: true, Output: tail(out, 4000), Inputs: inputs}
 	idx := strings.Index(out, "VERIF-OUT ")
 	if idx < 0 {
 		ro.Detail = fmt.Sprintf("replay produced no output (go test error: %v)", rerr)
@@ -922,6 +939,10 @@ func evalClausesConcrete(run *PropRun, c0 *Ctx, g *ObGroup, ins []interface{}, r
 		fr.Env[p] = v
 	}
 	fr.Old = st.snapshot()
+	func() {
+		defer func() { recover() }()
+		c.specEnvFor(st, fr) // bind the contract's `let` names in the pre-state
+	}()
 	c.replayPost = true
 	post, _ := res["post"].([]interface{})
 	for i, p := range fn.Params {
@@ -1070,7 +1091,7 @@ func replayConfirms(run *PropRun, g *ObGroup, path string) bool {
 	if err == nil {
 		var m map[string]interface{}
 		if json.Unmarshal(data, &m) == nil {
-			m["replay"] = map[string]interface{}{"ran": ro.Ran, "confirmed_on_real_code": ro.Confirmed, "detail": ro.Detail, "output_tail": ro.Output}
+			m["replay"] = map[string]interface{}{"ran": ro.Ran, "confirmed_on_real_code": ro.Confirmed, "detail": ro.Detail, "output_tail": ro.Output, "inputs_built_from_model": ro.Inputs}
 			if nd, err := json.MarshalIndent(m, "", " "); err == nil {
 				os.WriteFile(path, nd, 0o644)
 			}
